@@ -5,8 +5,10 @@
 set -e
 S=${1:-/tmp/llfree-cov}
 TB=$(dirname "$(find "$HOME/.rustup/toolchains" -path '*nightly-x86_64*' -name llvm-cov | head -1)")
-mkdir -p "$S/prof" "$S/out"
+mkdir -p "$S/prof" "$S/out" "$S/buildprof"
 cd /verif/harness
+# build scripts / proc macros are instrumented too: keep their profiles out of the source trees
+export LLVM_PROFILE_FILE="$S/buildprof/%p-%m.profraw"
 RUSTFLAGS="-C instrument-coverage" CARGO_NET_OFFLINE=true CARGO_TARGET_DIR="$S/target" \
   cargo +nightly build --release --offline --bin seqrun --bin schedrun --bin zonerun --bin searchrun --bin polrun >/dev/null 2>&1
 R="$S/target/release"
